@@ -660,7 +660,9 @@ class RTCDtlsTransport(AsyncIOEventEmitter):
             if data is None:
                 self.__log_debug("- DTLS shutdown by remote party")
                 raise ConnectionError
-            elif data and self._data_receiver:
+            elif data and self._data_receiver and self._state == State.CONNECTED:
+                # Application data is only delivered once the peer's identity
+                # has been validated against the signalled fingerprints.
                 await self._data_receiver._handle_data(data)
         elif first_byte > 127 and first_byte < 192 and self._rx_srtp:
             # SRTP / SRTCP
